@@ -2,6 +2,7 @@ import CddVerif.Driver.Basic
 import CddVerif.Model.Doc
 import CddVerif.Proofs.DocRoundTripDomain
 import CddVerif.Proofs.DocGNRoundTripDomain
+import CddVerif.Proofs.DocNPRoundTripDomain
 import CddVerif.Driver.C14GN
 /-! Driver ops for C01 (line protocol; see Main.lean). Only Mathlib-free imports here. -/
 namespace Driver.C01
@@ -87,6 +88,11 @@ def ops : List (String × Handler) := [
     let ir ← irOf (← j.getObjVal? "ir")
     let edd := (getBool j "edd").toOption.getD true
     return Json.mkObj [("indomain", Json.bool (C01Google.inDomainGB ir)), ("exp", Driver.C14GN.irJ (DocGNRT.expIRG ir edd))]),
+  -- the NumPy whole-docstring theorem (Properties/C01Numpy.lean: numpy_roundtrip_full, types emitted)
+  ("c01.numpy", fun j => do
+    let ir ← irOf (← j.getObjVal? "ir")
+    let edd := (getBool j "edd").toOption.getD true
+    return Json.mkObj [("indomain", Json.bool (C01Numpy.inDomainNB ir)), ("exp", Driver.C14GN.irJ (C01Numpy.expIRN ir true edd))]),
   ("c01.needs_quoting", fun j => do
     return Json.mkObj [("r", Json.bool (needsQuoting (optChars j "typ")))])
 ]
